@@ -230,7 +230,8 @@ theorem reloadTwice_fullId {D : Type} (hc : HC D) (fl : Flags) (lib : List Cls) 
     (hok : ∀ n, Needed sg.g [root] n → NodeOk lib sg n)
     (hm : (fl.metaWriteAll = true ∧ fl.metaReadAll = true) ∨
       ∀ n, Needed sg.g [root] n → (sg.g.node n).mflag ≠ some false)
-    (hi : fl.initRestored = true ∨ ∀ n, Needed sg.g [root] n → (sg.g.node n).initTasks = []) :
+    (hi : fl.initRestored = true ∨ ∀ n, Needed sg.g [root] n → (sg.g.node n).initTasks = [])
+    (hdn : DefaultsNeeded sg.g [root]) :
     ∃ L1 defs2 L2, reloadTwice fl lib sg [root] = .ok (L1, defs2, L2) ∧
       fullId hc (toGraph L2 sg.g.size) root = fullId hc sg.g root := by
   have hr' : ∀ r ∈ [root], r < sg.g.size := by simpa using hr
@@ -238,7 +239,7 @@ theorem reloadTwice_fullId {D : Type} (hc : HC D) (fl : Flags) (lib : List Cls) 
   obtain ⟨_, hiff, hlt, hcl⟩ := serialOrder_spec sg.g [root] hwf hr'
   refine ⟨L1, defs2, L2, hL, ?_⟩
   apply fullId_congr_on hc sg.g (toGraph L2 sg.g.size) (fun n => n ∈ serialOrder sg.g [root])
-    (toGraph_size L2 _).symm hcl
+    (toGraph_size L2 _).symm hcl (fun n hn m hm => (hiff m).2 (hdn n ((hiff n).1 hn) m hm))
   · intro n hn
     obtain ⟨o, ho, _, hs, _⟩ := hlook n ((hiff n).1 hn)
     rw [toGraph_node L2 _ n (hlt n hn), ho]
